@@ -225,3 +225,25 @@ extern "C" void harness_c10_probe() {
   WITNESS();
 }
 #endif
+
+#ifdef C10_PROBE2
+static volatile int sink;
+extern "C" void harness_c10_probe2() {
+  std::string a("A");
+  for (size_t i = 0; i < a.size(); i++) sink++;                       // loop A
+  std::vector<CPPNameComponent> v;
+  v.push_back(CPPNameComponent(a));
+  for (size_t i = 0; i < v.size(); i++) sink++;                       // loop B
+  for (size_t i = 0; i < v.back()._name.size(); i++) sink++;          // loop C
+  std::string b = v.back()._name;
+  for (size_t i = 0; i < b.size(); i++) sink++;                       // loop D
+#if C10_PROBE2 >= 2
+  CPPIdentifier *ident = new CPPIdentifier(std::string("A"));
+  for (size_t i = 0; i < ident->_names.size(); i++) sink++;            // loop E
+  for (size_t i = 0; i < ident->_names.back()._name.size(); i++) sink++;   // loop F
+  std::string c = ident->get_simple_name();
+  for (size_t i = 0; i < c.size(); i++) sink++;                       // loop G
+#endif
+  WITNESS();
+}
+#endif
